@@ -87,8 +87,25 @@ impl Env {
         std::env::set_var("VLOG", &self.vlog);
         std::env::remove_var("TXTPP_FILE");
         let cfg = self.config_for(&self.root, c);
+        // every source gets at most a first and a final pass, every directory one scan
+        let (mut n_src, mut n_dir) = (0usize, 1usize);
+        fn count(d: &Path, n_src: &mut usize, n_dir: &mut usize) {
+            if let Ok(rd) = std::fs::read_dir(d) {
+                for e in rd.flatten() {
+                    match e.file_type() {
+                        Ok(t) if t.is_dir() => {
+                            *n_dir += 1;
+                            count(&e.path(), n_src, n_dir);
+                        }
+                        _ => *n_src += 1,
+                    }
+                }
+            }
+        }
+        count(&self.root, &mut n_src, &mut n_dir);
         let opts = SimOpts {
             snap_root: if snaps { Some(&self.root) } else { None },
+            max_tasks: 4 * n_src + 2 * n_dir + 8 * c.inputs.len() + 16,
             ..Default::default()
         };
         let out = simulate(&self.root, cfg, sched, &opts);
